@@ -9,3 +9,11 @@ claim("C17",
   "Rules run: C17/name-file, schema, tree, patterns, steps, options, merge. Trusted: go/types, go list's embed resolution, gopkg.in/yaml.v3's parser (node API only), regexp/syntax as the model of regexp.MustCompile, the checker's model of yaml.v3 decoding rules.",
   "asset/code cross-validation: typed YAML walk driven by go/types struct tags + AST switch-table extraction",
   "DESIGN.md section 4, C17")
+
+claim("C19",
+  "Decides the property's configuration-space clauses for ALL option lists at once by extracting the option table from the code instead of sampling permutations: for each of the 45 driver options and 3 logging options the SSA of the returned closure gives target type, stored field(s), provenance of the stored value and return classes (ignored sentinel only on the non-matching path, never after a store; success never without the store; other errors wrap the bad-option error); "
+  "each option stores exactly the setting a specification table names and reads no other setting (order independence; additive options append to themselves); every constructor (generic, network, NETCONF; platform via setDriver) applies the FULL list by a range loop, in order, to every target type, leaving the loop only on a non-ignored error (last writer wins); the platform constructor passes append(platform options, user options...); netconf.NewDriver copies each field it re-declares; every platform option name has a case producing the option it stands for from a value asserted to a type yaml.v3 can produce. "
+  "Not decided: nothing value-level remains except the semantics of helper calls (ResolveFilePath, regexp.MustCompile).",
+  "Rules run: C19/O1O2, O3, O4, O5, O6, O7. Trusted: go/ssa, the specification tables in checker/rule_c19.go (option -> setting, platform option name -> driver option). Assumes the constructors named in the rule are the public entry points.",
+  "option-table extraction from closure SSA + constructor apply-loop analysis (range order, exit guards) + AST switch tables",
+  "DESIGN.md section 4, C19")
